@@ -13,7 +13,7 @@ ASSUMPTIONS = [
     "permutation invariance is obtained from equality with the (symmetric) per-residue sum, not checked separately",
 ]
 OUTSIDE = ["sequence lengths above the bound"]
-NMAX = {"quick": 8, "thorough": 14}
+NMAX = {"quick": 8, "thorough": 12}
 ITEM_TIMEOUT = {"quick": 300, "thorough": 1200}
 
 
